@@ -4,7 +4,7 @@
    MIR_scan_string), coq/C10/FloatFmt.v (libc printf/strtod oracles). *)
 From Coq Require Import List ZArith NArith.
 From MirV Require Import Base.W64 C11.Ast C11.BinIO C11.BinIOProofs C10.TextOut C10.TextScan C10.TextProofs C10.LexProofs
-  C10.TextTokens C10.ParseProofs C10.PrintNormProofs C10.LexAllProofs C10.TextFixpoint C10.FloatFmt C10.TextExamples.
+  C10.TextTokens C10.ParseProofs C10.PrintNormProofs C10.LexAllProofs C10.TextFixpoint C10.FloatFmt C10.TextExamples C11.TempNames.
 Import ListNotations.
 Local Open Scope Z_scope.
 
@@ -105,3 +105,16 @@ Theorem text_fixpoint_nonvacuous :
   wf_text parseF parseD parseLD fmtF fmtD fmtLD tex_ctx /\ map tnorm_module tex_ctx <> tex_ctx.
 Proof. exact (conj tex_wf tex_tnorm_differs). Qed.
 Print Assumptions text_fixpoint_nonvacuous.
+
+(* Temporary item names after a scan: MIR_scan_string passes every statement label to
+   process_reserved_name, so module->last_temp_item_num ([text_item_counter]; compared with the
+   implementation on every generated module) is at least the number k of every *defined* item named
+   ".lc<k>", and the next name _MIR_get_temp_item_name generates is not the name of a defined item of
+   the scanned module: loading it (simplification creates .lc data for float and string immediates)
+   cannot fail with "Repeated item declaration" where the original module loads. *)
+Theorem text_temp_counter_fresh : forall m it, In it (mod_items m) -> is_decl it = false ->
+  (forall k, 0 <= k < 2 ^ 32 -> item_name it = Some (temp_item_name k) -> k <= text_item_counter m)
+  /\ (text_item_counter m + 1 < 2 ^ 32 -> item_name it <> Some (temp_item_name (text_item_counter m + 1)))
+  /\ text_item_counter (tnorm_module m) = text_item_counter m.
+Proof. exact text_temp_counter_lemma. Qed.
+Print Assumptions text_temp_counter_fresh.
